@@ -63,6 +63,12 @@ func NewMerger(ki *kmerindex.Index, query *linear.Seq, filterParams *Params, max
 // Merge a filter hit into the collection.
 func (m *Merger) MergeFilterHit(h *Hit) {
 	Left := -h.Diagonal
+	// A hit whose band of diagonals starts beyond the last row of the query holds
+	// no cell of the comparison (the filter reports one for a tube index that has
+	// wrapped around) and lies to the right of the end of the list of trapezoids.
+	if Left > m.query.Len() {
+		return
+	}
 	// The aligner widens every trapezoid by maxIGap diagonals, so keep that
 	// far away from the main diagonal in a self comparison.
 	if m.selfComparison && Left-m.maxIGap <= m.filterParams.MaxError {
